@@ -385,6 +385,22 @@ impl<'de> Deserialize<'de> for MemberKind {
     }
 }
 
+/// Verification-only accessor: the EIP-712 `encodeType` string of `kind` for
+/// the `types` object given as JSON.
+#[cfg(feature = "verif-hooks")]
+pub fn verif_encode_type(types_json: &str, kind: &str) -> Result<String> {
+    let types = serde_json::from_str::<Types>(types_json)?;
+    types.encode_type(kind)
+}
+
+/// Verification-only accessor: a member type string parsed and printed back,
+/// together with the debug rendering of its parsed form.
+#[cfg(feature = "verif-hooks")]
+pub fn verif_member_type_image(s: &str) -> (String, String) {
+    let kind = MemberKind::from_str(s);
+    (kind.to_string(), format!("{kind:?}"))
+}
+
 #[cfg(test)]
 mod tests {
     use super::*;
